@@ -69,14 +69,14 @@ func run(r *hx.Run) error {
 	for i := 0; i < ns; i++ {
 		h.genStream(i)
 	}
-	nq := 40
+	nq := 70
 	if r.Thorough {
 		nq = 400
 	}
 	for i := 0; i < nq; i++ {
 		h.genQuery(i)
 	}
-	nr := 12
+	nr := 20
 	if r.Thorough {
 		nr = 120
 	}
